@@ -1,4 +1,4 @@
-(* CvProof .. CvProof7: invariants of Model/CvModel.v (nsync condition variables, current code with the F3 repair) and
+(* CvProof .. CvProof7: invariants of Model/CvModel.v (nsync condition variables, current code with the F3 and F15 repairs) and
    the lemmas used by Props/Properties_C04.v and Props/Properties_C05cv.v.
 
    CvProof.v   Layer T  facts local to one wait call and the log of returns (mode held at return, reason of the return
@@ -15,10 +15,13 @@
                Layer N  the same for the sleepers of nsync_wait_n                                              -> NInv
    CvProof5.v  Layer K  the run-level account of every signal / broadcast call (ghost history, [wlog])         -> KInv
    CvProof6.v  Layer D  CV_NON_EMPTY while somebody is inside a spinlock section                               -> DInv
+               Layer L  the lock field of the abstract mutex word counts the holders of the model              -> LInv
+               Layer F  the mutex spinlock section of wake_waiters: owner, spinlock bit, clear_on_release against the
+                        transferred queue (F15: MU_WAITING after the release only if a waiter is queued)       -> FInv, LF_run
    CvProof7.v           C05: a wait whose outcome is decided returns when run alone
    All layers are inductive over [step] for any number of threads, any programs, schedules, clock and note
    behaviour.  Every value the model writes goes through Gen/Sites.v; the lemmas [spin_new_1/3], [lowbits_set],
-   [cas_new_inc], [spin_guard_low] are where the generated expressions are used. *)
+   [cas_new_inc], [spin_guard_low], [cas1_word], [cas2_word] are where the generated expressions are used. *)
 From NsyncBase Require Import CSem.
 From NsyncGen Require Import Consts Sites.
 From NsyncModel Require Import CvModel.
